@@ -290,4 +290,30 @@ example : (step exTree (run exTree (init exTree) (exOps.take 5)) .verify).1.tip 
 
 example : crashFree exOps := by decide
 
+/-! ## A reachable state the code does not expect (the root of finding F7)
+
+`delete_block` does not delete the ext row and a second queued copy of a block is verified from
+memory. Block 1 (child of genesis, contextually invalid) is delivered, then block 2 (valid child of
+genesis), then block 1 again, all before any verification: the first copy of 1 fails (heavier than
+the tip) and is deleted; 2 becomes the tip; the second copy of 1 is now not heavier, so
+`verify_block` takes the `else` branch: it writes an ext for block 1 — whose data is gone — and
+`consume_unverified_blocks` clears its BLOCK_INVALID mark. The model reaches exactly this state
+(`td 1 = some _`, `stored 1 = false`, not marked invalid), the real code too (harness, burst mode);
+the real code then panics in `get_block(..).expect(..)` as soon as it needs block 1's data
+(`delete_unverified_block`, `find_fork`). None of the C01 theorems needs `ext → stored`; this
+witness records that it is NOT an invariant. -/
+def dupTree : Tree :=
+  { parent := fun _ => 0, num := fun b => if b = 0 then 0 else 1, epoch := fun _ => 0, work := fun _ => 2,
+    nc := fun _ => true, ok := fun b => decide (b ≠ 1) }
+
+theorem ext_without_block_data_reachable :
+    ∃ ops, let s := run dupTree (init dupTree) ops
+      Quiescent s ∧ s.td 1 = some 4 ∧ s.stored 1 = false ∧ s.invalid 1 = false ∧ s.ver 1 = false ∧
+      s.tip = 2 ∧ ¬ FullyValid dupTree 1 :=
+  ⟨[.deliver 1 [], .deliver 2 [], .deliver 1 [], .verify, .verify, .verify], by
+    refine ⟨by decide, by decide, by decide, by decide, by decide, by decide, ?_⟩
+    intro h
+    have := (h.flags (by decide)).2
+    revert this; decide⟩
+
 end CkbVerif.C01
